@@ -61,13 +61,14 @@ def random_config(rng, kinds=KINDS, coarse=False):
     ct = rng.choice(['NRTL', 'UNIQUAC']) if m.uniquac_params is not None else 'NRTL'
     # step length: remove roughly `frac` of the feed over the whole run (fine) or per step (coarse)
     flux_guess = P1 * 20.0 + P2 * 20.0
-    frac = gens.loguniform(rng, 0.1, 10.0) if coarse else rng.uniform(0.01, 0.5) / n
+    frac = gens.loguniform(rng, 0.1, 10.0) if coarse else (rng.uniform(0.01, 0.5) / n if rng.random() < 0.8 else gens.loguniform(rng, 1e-9, 1e-3))
     dt = frac * m0 / (flux_guess * A)
     Texp = T0 if rng.random() < 0.5 else T0 + rng.uniform(-20, 20)
     units = rng.choice(['kg/(m2*h*kPa)', 'kg/(m2*h*kPa)', 'SI', 'GPU'])
     ip = None
     if kind.startswith('nonideal') and rng.random() < 0.5:
-        ip = (pv.Permeance(P1), pv.Permeance(P2))
+        ipu = rng.choice(['kg/(m2*h*kPa)', 'SI', 'GPU'])
+        ip = (pv.Permeance(P1).convert(ipu, m.first_component), pv.Permeance(P2).convert(ipu, m.second_component))
     ncurves = rng.choice([1, 1, 2, 3]) if kind.startswith('nonideal') else 0
     return dict(m=m, kind=kind, T0=T0, Tp=Tp, pp=pp, prog=prog, x0=x0, basis=basis, A=A, m0=m0, n=n, dt=dt,
                 P1=P1, P2=P2, ct=ct, prec=5e-5, Texp=Texp, units=units, ip=ip, ncurves=ncurves, mode=mode,
